@@ -134,11 +134,19 @@ pub fn trace_sigint(seed: u64, n: usize) -> Vec<J> {
     { let mut s = String::with_capacity(6_000_000); for i in 1..=total { s.push_str(&format!("k=a v={}\n", i)); } std::fs::write(&data, s).unwrap(); }
     let defs = dir.join("defs.txt");
     std::fs::write(&defs, "CREATE TABLE t(line = 'k=([a-z]+) v=([0-9]+)', line[1] => k TEXT, line[2] => v INT);\n").unwrap();
+    // a joined file in which the key of every input line has FAN partners: an aggregate over the join, interrupted in the middle of a line,
+    // still shows the table of whole lines (COUNT(*) = FAN x lines processed)
+    const FAN: u64 = 400;
+    let joined = dir.join("fan.txt");
+    { let mut s = String::new(); for j in 0..FAN { s.push_str(&format!("k=a v={}\n", j)); } std::fs::write(&joined, s).unwrap(); }
+    std::fs::write(&defs, "CREATE TABLE t(line = 'k=([a-z]+) v=([0-9]+)', line[1] => k TEXT, line[2] => v INT);\nCREATE TABLE u(jl = 'k=([a-z]+) v=([0-9]+)', jl[1] => k TEXT, jl[2] => w INT);\n").unwrap();
+    let join_query = format!("SELECT COUNT(*) AS n, MAX(v) AS m FROM t INNER JOIN u::'{}' ON t.k = u.k", joined.to_str().unwrap());
     let mut ev = Vec::new();
     for i in 0..n {
         let agg = i % 2 == 1;
-        tick(&json!({"i": i, "agg": agg}));
-        let query = if agg { "SELECT COUNT(*) AS n, MAX(v) AS m FROM t" } else { "SELECT v FROM t" };
+        let fan = if agg && i % 4 == 3 { FAN } else { 1 };
+        tick(&json!({"i": i, "agg": agg, "fan": fan}));
+        let query: &str = if fan > 1 { &join_query } else if agg { "SELECT COUNT(*) AS n, MAX(v) AS m FROM t" } else { "SELECT v FROM t" };
         let mut child = Command::new(cli()).env("TZ", "UTC").env_remove("RUST_BACKTRACE")
             .args(["-d", defs.to_str().unwrap(), data.to_str().unwrap(), "--show-run-stats", "-c", query])
             .stdin(Stdio::null()).stdout(Stdio::piped()).stderr(Stdio::piped()).spawn().unwrap();
@@ -182,7 +190,9 @@ pub fn trace_sigint(seed: u64, n: usize) -> Vec<J> {
             if recs.len() == 1 {
                 for part in recs[0].split(", ") { if let Some(x) = part.strip_prefix("n: ") { nn = x.parse().unwrap_or(0); } if let Some(x) = part.strip_prefix("m: ") { mm = x.parse().unwrap_or(0); } }
             }
-            ev.push(json!({"ev": "sigint", "kind": "agg", "exit": exit, "err": err, "records": recs.len(), "n": nn, "m": mm, "processed": processed, "total": total,
+            // with a join of fan-out FAN every processed line contributes FAN rows: n must be a whole multiple
+            let nn = if fan > 1 { if nn % fan == 0 { nn / fan } else { 0 } } else { nn };
+            ev.push(json!({"ev": "sigint", "kind": "agg", "fan": fan, "exit": exit, "err": err, "records": recs.len(), "n": nn, "m": mm, "processed": processed, "total": total,
                            "sample": recs.iter().take(2).collect::<Vec<_>>()}));
         } else {
             let prefix_ok = recs.iter().enumerate().all(|(j, l)| **l == format!("v: {}", j + 1));
